@@ -29,6 +29,7 @@ type TierSpec struct {
 	PermLimit int           `json:"perm_limit"`
 	PoolAdv   bool          `json:"pool_adversarial"`
 	LockCheck bool          `json:"lock_check"`
+	RaceCheck bool          `json:"race_check"`
 	MaxAlloc  int           `json:"max_alloc"`
 }
 
@@ -390,6 +391,7 @@ func runCheck(id, tier string) int {
 	sh.preempt = ts.Preempt
 	sh.poolAdversarial = ts.PoolAdv
 	sh.lockCheck = ts.LockCheck
+	sh.raceCheck = ts.RaceCheck
 	sh.ignoreAsserts = ts.LockCheck // the lock check borrows other harnesses for their paths only
 	var targets []*ssa.Package
 	for _, pd := range spec.Pkgs {
@@ -790,6 +792,7 @@ func runDev(args []string) int {
 	}
 	sh.poolAdversarial = os.Getenv("VERIF_POOLADV") != ""
 	sh.lockCheck = os.Getenv("VERIF_LOCKCHECK") != ""
+	sh.raceCheck = os.Getenv("VERIF_RACECHECK") != ""
 	sh.known = map[string]bool{}
 	for _, l := range strings.Split(os.Getenv("VERIF_KNOWN"), ",") {
 		if l != "" {
